@@ -203,3 +203,170 @@ Proof.
   - exists e. split; [exact He|]. intros ->. exact (parse_jsonb_not_fuel p He).
   - destruct Hp as (x & _ & E). unfold from_slice. rewrite He. eapply parse_value_prefix_rejected; eauto.
 Qed.
+
+(* ================================================================ (c) the text reader's fuel, hence from_slice's *)
+(* parse_value runs parse_json_value with fuel S (length bs) (nesting and the element / member loops) and parse_string with
+   fuel S (length data): every value consumes at least one byte (parse_json_value_sound: a value's text is not empty),
+   every escape at least one, so neither fuel is ever the reason for an answer *)
+Lemma jvalue_nonempty t v : jvalue t v -> t <> [].
+Proof.
+  intros H. destruct H; try discriminate.
+  - destruct H as [neg ids tf fd te e Hi Hf He]. destruct neg; cbn [app]; [discriminate|]. destruct Hi; discriminate.
+  - destruct H. discriminate.
+Qed.
+
+(* a successful value parse consumes at least one byte *)
+Lemma pv_consumes fuel bs v rest : parse_json_value fuel bs = Ok (v, rest) -> (length rest < length bs)%nat.
+Proof.
+  intros H. destruct (parse_json_value_sound fuel _ _ _ H) as (w & t & -> & _ & Hv). apply jvalue_nonempty in Hv.
+  rewrite !app_length. destruct t; [contradiction|]. cbn [length]. lia.
+Qed.
+Lemma skip_len bs : (length (skip_unused bs) <= length bs)%nat.
+Proof. destruct (skip_sound bs) as (w & E & _). rewrite E at 2. rewrite app_length. lia. Qed.
+
+(* the string reader *)
+Lemma read_unicode_digits_len data n r : read_unicode_digits data = Ok (n, r) -> (length r <= length data)%nat.
+Proof.
+  unfold read_unicode_digits. destruct data as [|x d]; [discriminate|]. destruct (x =? 123).
+  - destruct (length d <? 4)%nat; [discriminate|]. destruct (skipn 4 d) as [|y r3] eqn:E; [discriminate|].
+    destruct (y =? 125); [|discriminate]. intros H. injection H as _ <-.
+    assert (L : length (skipn 4 d) = S (length r3)) by (rewrite E; reflexivity). rewrite skipn_length in L. cbn [length]. lia.
+  - destruct (length (x :: d) <? 4)%nat; [discriminate|]. pose proof (skipn_length 4 (x :: d)) as SL. intros H. injection H as _ <-. cbn [skipn length] in *. lia.
+Qed.
+Lemma parse_escaped_len data r chunk : parse_escaped_string data = Ok (r, chunk) -> (length r < length data)%nat.
+Proof.
+  unfold parse_escaped_string. destruct data as [|b d]; [discriminate|]. cbn [length].
+  repeat match goal with |- context [if ?c =? ?k then _ else _] => destruct (c =? k); [intros H; injection H as <- _; lia|] end.
+  destruct (b =? 117); [|discriminate].
+  destruct (read_unicode_digits d) as [[numbers r1]| |] eqn:R1; cbn [bind]; try discriminate. apply read_unicode_digits_len in R1.
+  destruct (decode_hex_escape numbers 0) as [hex|]; [|discriminate].
+  destruct ((56320 <=? hex) && (hex <=? 57343)); [intros H; injection H as <- _; lia|].
+  destruct ((55296 <=? hex) && (hex <=? 56319)); [|intros H; injection H as <- _; lia].
+  destruct r1 as [|a r1']; [intros H; injection H as <- _; cbn [length] in *; lia|].
+  destruct (N.eq_dec a 92) as [->|Na].
+  2:{ destruct a as [|p]; [intros H; injection H as <- _; lia|]. do 7 (destruct p; try (intros H; injection H as <- _; lia)). exfalso; apply Na; reflexivity. }
+  destruct r1' as [|b2 r2]; [intros H; injection H as <- _; cbn [length] in *; lia|].
+  destruct (N.eq_dec b2 117) as [->|Nb].
+  2:{ destruct b2 as [|p]; [intros H; injection H as <- _; lia|]. do 7 (destruct p; try (intros H; injection H as <- _; lia)). exfalso; apply Nb; reflexivity. }
+  destruct (read_unicode_digits r2) as [[lower r3]| |] eqn:R2; cbn [bind]; try discriminate. apply read_unicode_digits_len in R2.
+  cbn [length] in R1.
+  destruct (decode_hex_escape lower 0) as [n2|]; [|discriminate].
+  destruct ((56320 <=? n2) && (n2 <=? 57343)); intros H; injection H as <- _; lia.
+Qed.
+Lemma parse_string_fuel_nf fuel : forall data buf, (length data < fuel)%nat -> parse_string_fuel fuel data buf <> Err EFuel.
+Proof.
+  induction fuel as [|f IH]; intros data buf L; [lia|]. cbn [parse_string_fuel].
+  destruct data as [|b r]; [destruct (utf8_valid buf); discriminate|]. cbn [length] in L.
+  destruct (b =? 92).
+  - destruct (parse_escaped_string r) as [[r' chunk]|e|] eqn:P; cbn [bind]; try discriminate.
+    + apply parse_escaped_len in P. apply IH. lia.
+    + intros H. injection H as ->. revert P. unfold parse_escaped_string. destruct r as [|x d]; [discriminate|].
+      repeat match goal with |- context [if ?c =? ?k then _ else _] => destruct (c =? k); [discriminate|] end.
+      destruct (x =? 117); [|discriminate].
+      assert (RU : forall dd, read_unicode_digits dd <> Err EFuel).
+      { intros dd. unfold read_unicode_digits. destruct dd as [|y d']; [discriminate|]. destruct (y =? 123).
+        - destruct (length d' <? 4)%nat; [discriminate|]. destruct (skipn 4 d') as [|z r3]; [discriminate|]. destruct (z =? 125); discriminate.
+        - destruct (length (y :: d') <? 4)%nat; discriminate. }
+      destruct (read_unicode_digits d) as [[numbers r1]|e|] eqn:R1; cbn [bind]; try discriminate.
+      2:{ intros H. injection H as ->. exact (RU d R1). }
+      destruct (decode_hex_escape numbers 0) as [hex|]; [|discriminate].
+      destruct ((56320 <=? hex) && (hex <=? 57343)); [discriminate|].
+      destruct ((55296 <=? hex) && (hex <=? 56319)); [|discriminate].
+      destruct r1 as [|a r1']; [discriminate|].
+      destruct (N.eq_dec a 92) as [->|Na].
+      2:{ destruct a as [|p]; [discriminate|]. do 7 (destruct p; try discriminate). exfalso; apply Na; reflexivity. }
+      destruct r1' as [|b2 r2]; [discriminate|].
+      destruct (N.eq_dec b2 117) as [->|Nb].
+      2:{ destruct b2 as [|p]; [discriminate|]. do 7 (destruct p; try discriminate). exfalso; apply Nb; reflexivity. }
+      destruct (read_unicode_digits r2) as [[lower r3]|e|] eqn:R2; cbn [bind]; try discriminate.
+      2:{ intros H. injection H as ->. exact (RU r2 R2). }
+      destruct (decode_hex_escape lower 0) as [n2|]; [|discriminate].
+      destruct ((56320 <=? n2) && (n2 <=? 57343)); discriminate.
+  - apply IH. lia.
+Qed.
+
+Lemma parse_json_string_nf bs : parse_json_string bs <> Err EFuel.
+Proof.
+  unfold parse_json_string. destruct (scan_string (S (length bs)) bs [] 0) as [[[data esc] rest]|] eqn:E; [|discriminate].
+  destruct esc; [destruct (utf8_valid data); discriminate|].
+  unfold parse_string. destruct (parse_string_fuel (S (length data)) data []) as [s|e|] eqn:P; cbn [bind]; try discriminate.
+  intros H. injection H as ->. revert P. apply parse_string_fuel_nf. lia.
+Qed.
+
+Lemma parse_json_number_nf bs : parse_json_number bs <> Err EFuel.
+Proof.
+  unfold parse_json_number.
+  repeat match goal with
+         | |- context [let '(_, _) := ?x in _] => destruct x
+         | |- context [match ?x with _ => _ end] => destruct x; cbn [bind]; try discriminate
+         end.
+Qed.
+
+Section LoopsNf.
+  Variable pv : list N -> res (value * list N).
+  Variable bound : nat.
+  Hypothesis Hlen : forall bs v rest, pv bs = Ok (v, rest) -> (length rest < length bs)%nat.
+  Hypothesis Hnf : forall bs, (length bs <= bound)%nat -> pv bs <> Err EFuel.
+
+  Lemma arr_loop_nf k : forall first acc bs, (length bs < k)%nat -> (length bs <= bound)%nat -> arr_loop pv k first acc bs <> Err EFuel.
+  Proof.
+    induction k as [|k IH]; intros first acc bs Lk Lb; [lia|]. cbn [arr_loop].
+    pose proof (skip_len bs) as SL. destruct (skip_unused bs) as [|c r]; [discriminate|]. cbn [length] in SL.
+    destruct (c =? 93); [discriminate|].
+    assert (G : forall bs', (length bs' <= length (c :: r))%nat ->
+              (do (v, bs'') <- pv bs'; arr_loop pv k false (v :: acc) bs'') <> Err EFuel).
+    { intros bs' Lb'. cbn [length] in Lb'. destruct (pv bs') as [[v bs'']|e|] eqn:P; cbn [bind]; try discriminate.
+      - apply Hlen in P. apply IH; lia.
+      - intros H. injection H as ->. revert P. apply Hnf. lia. }
+    destruct first; [apply G; lia|]. destruct (c =? 44); [apply G; cbn [length]; lia|discriminate].
+  Qed.
+
+  Lemma obj_loop_nf k : forall first acc bs, (length bs < k)%nat -> (length bs <= bound)%nat -> obj_loop pv k first acc bs <> Err EFuel.
+  Proof.
+    induction k as [|k IH]; intros first acc bs Lk Lb; [lia|]. cbn [obj_loop].
+    pose proof (skip_len bs) as SL. destruct (skip_unused bs) as [|c r]; [discriminate|]. cbn [length] in SL.
+    destruct (c =? 125); [discriminate|].
+    assert (G : forall bs', (length bs' <= length (c :: r))%nat ->
+              (do (key, bs1) <- pv bs';
+               match key with
+               | VStr ks => match skip_unused bs1 with
+                            | 58 :: bs2 => do (v, bs3) <- pv bs2; obj_loop pv k false (assoc_insert ks v acc) bs3
+                            | _ => Err EOther end
+               | _ => Err EOther end) <> Err EFuel).
+    { intros bs' Lb'. cbn [length] in Lb'. destruct (pv bs') as [[key bs1]|e|] eqn:P; cbn [bind]; try discriminate.
+      - apply Hlen in P. destruct key; try discriminate.
+        pose proof (skip_len bs1) as SL1. destruct (skip_unused bs1) as [|c2 bs2]; [discriminate|]. cbn [length] in SL1.
+        destruct c2 as [|p]; [discriminate|]. do 6 (destruct p as [p|p|]; try discriminate).
+        destruct (pv bs2) as [[v bs3]|e|] eqn:P2; cbn [bind]; try discriminate.
+        + apply Hlen in P2. apply IH; lia.
+        + intros H. injection H as ->. revert P2. apply Hnf. lia.
+      - intros H. injection H as ->. revert P. apply Hnf. lia. }
+    destruct first; [apply G; lia|]. destruct (c =? 44); [apply G; cbn [length]; lia|discriminate].
+  Qed.
+End LoopsNf.
+
+Theorem parse_json_value_nf fuel : forall bs, (length bs < fuel)%nat -> parse_json_value fuel bs <> Err EFuel.
+Proof.
+  induction fuel as [|f IH]; intros bs L; [lia|]. cbn [parse_json_value].
+  pose proof (skip_len bs) as SL. destruct (skip_unused bs) as [|c r]; [discriminate|]. cbn [length] in SL.
+  destruct (c =? 110); [destruct (expect _ r); discriminate|].
+  destruct (c =? 116); [destruct (expect _ r); discriminate|].
+  destruct (c =? 102); [destruct (expect _ r); discriminate|].
+  destruct (is_digit c || (c =? 45)); [apply parse_json_number_nf|].
+  destruct (c =? 34).
+  { destruct (parse_json_string r) as [[s r']|e|] eqn:P; cbn [bind]; try discriminate.
+    intros H. injection H as ->. exact (parse_json_string_nf r P). }
+  assert (IH' : forall bs0, (length bs0 <= length r)%nat -> parse_json_value f bs0 <> Err EFuel) by (intros bs0 L0; apply IH; lia).
+  destruct (c =? 91); [apply (arr_loop_nf _ (length r) (pv_consumes f) IH'); lia|].
+  destruct (c =? 123); [apply (obj_loop_nf _ (length r) (pv_consumes f) IH'); lia|discriminate].
+Qed.
+
+Theorem parse_value_not_fuel bs : parse_value bs <> Err EFuel.
+Proof.
+  unfold parse_value. destruct (parse_json_value (S (length bs)) bs) as [[v rest]|e|] eqn:P; cbn [bind]; try discriminate.
+  - destruct (skip_unused rest); discriminate.
+  - intros H. injection H as ->. revert P. apply parse_json_value_nf. lia.
+Qed.
+
+Theorem from_slice_not_fuel bs : from_slice bs <> Err EFuel.
+Proof. unfold from_slice. destruct (parse_jsonb bs); [discriminate|apply parse_value_not_fuel|discriminate]. Qed.
